@@ -397,6 +397,10 @@ impl Res {
 
 /// Silence the default panic message (panics are expected outcomes of malformed cases).
 pub fn quiet_panics() {
+    // HC_LOUD=1 keeps the default hook (panic messages on stderr), for investigating a replay by hand
+    if std::env::var("HC_LOUD").is_ok() {
+        return;
+    }
     std::panic::set_hook(Box::new(|_| {}));
 }
 
